@@ -7,6 +7,7 @@ package main
 // count for a table), runs the public API call that reaches the site on the real library and prints
 // a canonical outcome; the Lean driver evaluates the model of the site on the same values.
 //
+//   ns  <hex>                                   a worksheet part with these bytes read through workSheetReader (namespaceStrictToTransitional): nopanic | PANIC
 //   rw  <r,cell,…;…>                            GetRows through the streaming iterator: lengths of the rows returned (cell = col|-|B : v|n)
 //   ic  <vm> <nBk> <rcLen> <v> <nRv>            GetPictures on a cell image cell (getImageCellRel: value metadata / rich value indices)
 //   gr  <0/1 per row>                           GetRows: rows r=1..n, empty or with a value; number of rows returned
@@ -489,6 +490,74 @@ func (c *c14Ctx) opAG(a c14Ag) {
 	}
 }
 
+func (c *c14Ctx) opNS(part string) {
+	c14SiteInit()
+	data := c14Patch(c14SiteBase.plain, "xl/worksheets/sheet1.xml", func(string) string { return part })
+	res := c14Open(data, func(f *xl.File) string {
+		_, _ = f.GetCellValue("Sheet1", "A1")
+		_, _ = f.GetRows("Sheet1")
+		return "nopanic"
+	})
+	if res == "ERR" {
+		res = "nopanic"
+	}
+	c.site("ns "+hx(part), res, "panic:namespaceStrictToTransitional:index", "namespaceStrictToTransitional indexes the part out of range")
+}
+
+// c14GenNS: a Strict worksheet part whose root start tag is damaged byte by byte, plus short adversarial strings
+func c14GenNS(c *c14Ctx, rng *Rng, thorough bool) {
+	const strict = "http://purl.oclc.org/ooxml/"
+	head := `<worksheet xmlns="` + strict + `spreadsheetml/main" xmlns:r="` + strict + `officeDocument/relationships">`
+	body := `<sheetData><row r="1"><c r="A1"><v>1</v></c></row></sheetData></worksheet>`
+	c.opNS(head + body)
+	step := 3
+	if thorough {
+		step = 1
+	}
+	for off := 10; off < len(head); off += step {
+		for _, v := range []string{"^", "del", "\"", "<", "=", "'"} {
+			b := []byte(head)
+			switch v {
+			case "^":
+				b[off] ^= 1
+			case "del":
+				b = append(b[:off], b[off+1:]...)
+			default:
+				b[off] = v[0]
+			}
+			c.opNS(string(b) + body)
+		}
+	}
+	// the blank between the two namespace declarations
+	sp := strings.Index(head, `" xmlns:r`) + 1
+	for _, r := range []byte{'!', '"', '=', 'x', 0} {
+		b := []byte(head)
+		b[sp] = r
+		c.opNS(string(b) + body)
+	}
+	for _, s := range []string{strict, `"` + strict, `<"` + strict, `<a "` + strict + `"`, `<a x="1"y="` + strict + `">`, `<a xmlns="` + strict + `"="` + strict + `">`,
+		`<a xmlns="` + strict + `"""">`, `<a xmlns='` + strict + `'Type="` + strict + `">`, `<a =="` + strict + `">`, `<a xmlns="` + strict, `<!--` + strict, `<![CDATA[` + strict, `<?` + strict, `</` + strict,
+		`<a xmlns="` + strict + `"   =   "q">`, `"""` + strict + `<"="<"`} {
+		c.opNS(s)
+	}
+	n := 150
+	if thorough {
+		n = 1500
+	}
+	alpha := []string{"<", ">", "\"", "'", "=", " ", "xmlns", "xmlns:r", "Type", "a", strict, "<!--", "-->", "<?", "?>", "</", "\t"}
+	for i := 0; i < n; i++ {
+		var sb strings.Builder
+		sb.WriteString(strict[:rng.Range(0, 3)*9])
+		for k := rng.Range(1, 14); k > 0; k-- {
+			sb.WriteString(rng.Pick(alpha))
+		}
+		if !strings.Contains(sb.String(), strict) {
+			sb.WriteString(strict)
+		}
+		c.opNS(sb.String())
+	}
+}
+
 // opRW: spec = rows separated by ';', each "<r>,<cell>,…" with cell "<col|-|B>:<v|n>" (col = 1-based column of a
 // valid reference, '-' = no r attribute, 'B' = unparsable r attribute; v = has a value)
 func (c *c14Ctx) opRW(spec string) {
@@ -685,6 +754,7 @@ func c14GenBS(c *c14Ctx, rng *Rng, thorough bool) {
 func c14GenSites(c *c14Ctx, rng *Rng, fx []*c14Fixture, thorough bool) {
 	c14GenBS(c, rng, thorough)
 	c14GenRW(c, rng, thorough)
+	c14GenNS(c, rng, thorough)
 	for _, vm := range []uint64{0, 1, 2, 3, 4294967295} {
 		for _, nBk := range []int{-1, 0, 1, 2} {
 			for _, rc := range []int{0, 1} {
